@@ -50,7 +50,7 @@ func c07ParamPeers(params []byte) string {
 	return c07Toks(ps)
 }
 
-// c07ErrClass canonicalises an error returned by the coordinator.
+// c07ErrClass canonicalises an error returned by the coordinator: the typed errors by errors.As, any other error `err`.
 func c07ErrClass(err error) string {
 	if err == nil {
 		return "ok"
@@ -71,14 +71,9 @@ func c07ErrClass(err error) string {
 		return "comm"
 	case errors.As(err, &te):
 		return "tss"
-	case strings.Contains(err.Error(), "tss fail message"):
-		return "fail"
-	case strings.Contains(err.Error(), "timed out"):
-		return "timeout"
-	case strings.Contains(err.Error(), "already pending"):
-		return "pending"
 	}
-	return "other"
+	// anything else is just "an error": the wording of error texts is not part of the behaviour
+	return "err"
 }
 
 // c07Signing builds the process through the repository's own constructors (NewSigning), over a key-share store that
@@ -490,7 +485,7 @@ func init() {
 		if m == "" {
 			m = mode
 		}
-		return "mode=" + m + ";sel=" + sel + ";r=" + joinOr(rs, ",") + ";n=" + itoa(nReady) + ";start=" + start + ";run=" + joinOr(runs, "/") + ";res=" + c11ErrClass(rerr) + note
+		return "mode=" + m + ";sel=" + sel + ";r=" + joinOr(rs, ",") + ";n=" + itoa(nReady) + ";start=" + start + ";run=" + joinOr(runs, "/") + ";res=" + c07ErrClass(rerr) + note
 	}
 	// coord1 <kind> <self> <t> <sid> <holders> <events> — real Execute on the STATIC coordinator (first attempt): ready
 	//   messages r<from> are read by initiate, fail messages f<from> by the watcher Execute starts next to it (which was
